@@ -5,6 +5,7 @@ package posex
 
 import (
 	"hash"
+	"sync"
 	"sync/atomic"
 
 	multihash "ipnicheck/testdata/posex/go-multihash"
@@ -42,4 +43,14 @@ func (c *cache) fresh(k string, v *int) {
 // registersHasher replaces a hash function in the (stand-in) process-wide registry.
 func registersHasher() {
 	multihash.Register(0x56, func() hash.Hash { return nil })
+}
+
+// latestSyncHandler mirrors the shape of the subscriber's latest-sync record;
+// forget deletes an entry (rule C01.c-latest-sync-never-forgotten must see it).
+type latestSyncHandler struct {
+	m sync.Map
+}
+
+func (h *latestSyncHandler) forget(k string) {
+	h.m.Delete(k)
 }
